@@ -315,7 +315,6 @@ func ruleBrokenStreamEndsRPC(c *Ctx, rule string) {
 	}
 }
 
-
 // ruleTransportStreamDelegates (C02.13): grpc.SetHeader / grpc.SendHeader / grpc.SetTrailer reach the stream.
 func ruleTransportStreamDelegates(c *Ctx, rule string) {
 	c.rule(rule, "the grpc.ServerTransportStream adapter (what grpc.SetHeader, grpc.SendHeader and grpc.SetTrailer use from a handler's context) delegates: each of its metadata methods calls a method of the server stream with its metadata argument unchanged and returns that call's result")
@@ -359,7 +358,6 @@ func ruleTransportStreamDelegates(c *Ctx, rule string) {
 	}
 	c.floor(rule, n, 3, "metadata methods of the transport-stream adapter")
 }
-
 
 // errorUsedBefore: the error value e is put to some use (argument of a call, captured by a function literal that is
 // created, stored somewhere that outlives the function, sent) at a point from which the return `ret` is reached.
@@ -430,7 +428,6 @@ func errorUsedBefore(e ssa.Value, ret ssa.Instruction) bool {
 	}
 	return false
 }
-
 
 // isSelfView: v is the receiver p itself (converted), directly or through a small conversion helper that returns its own
 // receiver (`func (t *adapter) stream() *serverStream { return (*serverStream)(t) }`).
@@ -558,7 +555,6 @@ func calleeDescShort(call *ssa.Call) string {
 	}
 	return n
 }
-
 
 // allocEscapesToClosure: the variable cell is captured by a function literal (it may be read at any time).
 func allocEscapesToClosure(al *ssa.Alloc) bool {
